@@ -1,6 +1,6 @@
-(** Correspondence for C06: the shared snap case, compared on the observables C06 is about. *)
+(** Correspondence for C04: the shared snap case, compared on the observables C04 is about. *)
 From Coq Require Import ZArith List.
 From Texel Require Export Prelude.Base Prelude.Corr Index.Model Snap.Model Corr.SnapCase.
 Definition case := snapcase.
-Definition check (c : case) : bool := check_outcome c && check_exact c.
+Definition check (c : case) : bool := check_proj proj_edges eq_edges c && check_proj proj_points eq_points c.
 Definition mismatches (l : list case) : list N := mismatches_from check 0 l.
